@@ -24,6 +24,7 @@ from term_image.image import BlockImage, ITerm2Image, KittyImage  # noqa: E402
 
 KINDS = ["kitty", "konsole", "wezterm", "iterm2", "other"]
 TMP = tempfile.mkdtemp(prefix="c01-")
+__import__("atexit").register(__import__("shutil").rmtree, TMP, ignore_errors=True)  # scratch images of this run
 
 
 def hx(b: bytes) -> str:
